@@ -353,7 +353,11 @@ def run(ctx):
 
                 def cb(i, line, a, b, fclass=fclass):
                     # duplicates are outside the value-level reader; with
-                    # several faults the first error may differ
+                    # several faults the first error may differ; a corrupted
+                    # file can parse to a message outside the model's
+                    # notation (e.g. a negative enum number): `bad-op`
+                    if b == "bad-op" and fclass in ("bitflip", "byteflip"):
+                        return True
                     return b == "err:dup" or fclass == "duplicate-uuid"
                 tie.add_checked("file %d %s" % (fno, what),
                                 ["frommsg " + " ".join(M)], [obs], cb)
